@@ -2,6 +2,7 @@ SPECIFICATION Spec
 CONSTANT MaxLen = 6
 CONSTANT MaxAvail = 0
 CONSTANT Mode = "quote"
+CONSTANT MaxMsgs = 2
 CONSTANT Kinds = {"msg"}
 INVARIANT QuoteOK
 INVARIANT QuoteClean
